@@ -17,10 +17,19 @@
 //	          by no statement, and probes it last: whatever the operation does to the receiver, the twin
 //	          is still the value that was written down (frame condition of the reference model).
 //
+//	(g) a program the analyzer rejects is skipped (and counted) unless a diagnostic sits on the statement
+//	          that performs the operation AND the same statement alone, as the body of a function whose
+//	          parameters carry the receiver type and exactly the advertised parameter types, is rejected
+//	          as well: then the analyzer refuses the use of a member it offers (violation, reported with
+//	          the diagnostics).
+//
 // Receivers are produced in several ways (the property speaks of every runtime value of a type):
 // literal, parse_json + cast, object literal cast to { ? }, and — for every receiver in the in-place
 // assignments, for the last receiver of each type everywhere — as the variable of a for loop (the
-// copy the runtime makes of the element) and through a cast to its own type. The instances with
+// copy the runtime makes of the element) and through a cast to its own type; the receiver that is the
+// start value of its type (0, "", [], none, objects of those) also as a singleton the host does not
+// provide — directly, as a field of a singleton object, and through an extraction parameter — i.e. as a
+// value the runtime made up itself from its own table of start values. The instances with
 // empty options / null in element and field cells ([?int], [{a:?int}], {a:?int,b:str},
 // {o:?str,l:[?int]}, any-objects holding none / null) put the "nothing there" values into the places
 // members read, write and serialise.
@@ -40,6 +49,8 @@ import (
 	"strings"
 
 	"github.com/smarthome-go/homescript/v3/homescript/analyzer/ast"
+	"github.com/smarthome-go/homescript/v3/homescript/diagnostic"
+	herrors "github.com/smarthome-go/homescript/v3/homescript/errors"
 
 	"hv/drive"
 	"hv/fw"
@@ -65,6 +76,8 @@ func (c18) Info(tier string) fw.Info {
 			"as the variable of a for loop over a one-element list and through a cast to the receiver's own type for every in-place assignment and, with up to 6 (thorough: 24) argument tuples per member, for the last receiver of each type. " +
 			"Lists, objects and any-objects are also built by a helper function whose body is the construction (fresh origin): receiver, twin and a third value made after the operation are three products of one construction site (every in-place assignment, every member call the model says writes into the receiver, and everything for the last receiver of each type); the third value must be the value written down. " +
 			"The any-object receivers hold every storable kind (typed objects, nested any-objects, floats, lists / options of objects, ranges, functions; also as nested objects of parsed JSON), and get_type of a present key must answer with the analyzer's name of that kind. " +
+			"The receiver that is the start value of its type (0, 0.0, false, \"\", [], {?} empty, none, objects of those) is also produced by the runtime itself: as a singleton `$Z = T;` the host does not provide (every argument tuple), as the field of such a singleton object and through a singleton extraction parameter `fn op(recv: $Z)` (up to 6 / 24 tuples per member). " +
+			"Element / payload / field types that are objects with several differently typed fields ([{a:int,b:str}], ?{s:str,n:int,t:bool}, {p:{a:int,b:str},l:[{a:int,b:str}]}) make whole objects the arguments of push / insert / contains / concat / unwrap_or and of assignments. " +
 			"Every program also builds an untouched second value like the receiver and probes it after the operation (it must be unchanged). to_json / to_json_indent results are parsed and compared as documents with the receiver. " +
 			"null-returning members run as a statement and bound to a variable; ?any results are also observed uncast through .to_string(). thorough adds 7-element and seed-chosen receivers and up to 200 argument tuples. " +
 			"non-trivial = the analyzer accepted the program and the member/index operation was executed by the backend (its result was probed, or it raised an interrupt, or it crashed); " +
@@ -79,6 +92,8 @@ func (c18) Info(tier string) fw.Info {
 			"an operation on one value leaves a second, separately constructed value alone, whatever produced the two (literal, parse_json, cast, loop variable)",
 			"a data field named like a builtin member is the member the analyzer offers (with the type of the field): reading and assigning it must reach the field in both runtimes",
 			"programs the analyzer rejects are skipped (counted as analyzer-rejected); the run is broken if a (backend,type,member) pair is never exercised",
+			"exception: 'accepts the advertised arguments' binds the analyzer too. When a diagnostic sits on the statement performing the operation and that statement alone in `fn op(recv: T, a0: P0, ...) { ... }` (T the receiver type, Pi the parameter types of the analyzer's own table, no literal anywhere) is rejected as well, the rejection is a violation; diagnostics that only concern the construction of receiver / arguments stay a matter of the self-check",
+			"a singleton the host does not provide starts as 0 / 0.0 / false / \"\" / [] / empty any-object / none, objects field by field, and is a value of its declared type like any other (types holding a range are left out: the two runtimes start a range at different values, which is not a statement about members)",
 		},
 		Exhaustive:   true,
 		CaseTimeoutS: 30,
@@ -117,7 +132,13 @@ func extraTuples(thorough bool) int {
 }
 
 // Extra reports whether the origin is one of the extra origins.
-func (r rcv) Extra() bool { return r.Origin == "loop" || r.Origin == "as" || r.Origin == "fresh" }
+func (r rcv) Extra() bool {
+	switch r.Origin {
+	case "loop", "as", "fresh", "zerof", "zerox":
+		return true
+	}
+	return false
+}
 
 // writes reports whether the reference model says that the call changes the receiver.
 func writes(recv rv, member string, args []rv) bool {
@@ -144,6 +165,11 @@ func expand(in inst) []rcv {
 		}
 		for _, o := range extraOriginsOf(in, v) {
 			out = append(out, rcv{v, o, show(v) != last, o == "fresh" && show(v) != last})
+		}
+		// the start value of a singleton: everything on "zero", a few argument tuples per member on
+		// the two other ways to reach it
+		for _, o := range zeroOriginsOf(in, v) {
+			out = append(out, rcv{v, o, false, false})
 		}
 	}
 	return out
@@ -524,6 +550,28 @@ func runProgram(p *payload, in inst) (res fw.Result) {
 	}()
 	ao := drive.Analyze(src, "main", true)
 	if ao.Errors > 0 {
+		if onOp, all := opDiagnostics(p, ao.Syntax, ao.Diags, p.Src, opLines(p)); len(onOp) > 0 {
+			// A diagnostic sits on the statement that performs the operation. It may be a consequence of
+			// a diagnostic further up (a literal of the setup the analyzer did not like), so the
+			// operation is put before the analyzer once more on its own: as the body of a function whose
+			// parameters are declared with the receiver type and with exactly the types the analyzer's
+			// table advertises for the member, and that nobody calls.
+			if alone, ok := useProbe(p, in); ok {
+				po := drive.Analyze(drive.Sources{"main": alone}, "main", true)
+				lines := map[int]string{}
+				for i, l := range strings.Split(alone, "\n") {
+					lines[i+1] = l
+				}
+				if inProbe, _ := opDiagnostics(p, po.Syntax, po.Diags, alone, lines); len(inProbe) > 0 {
+					res.Nontrivial = true
+					res.Cover = append(res.Cover, "analyzer-refused-operation")
+					return finish(p, res, []failure{{"analyzer-refuses-advertised-use", fmt.Sprintf(
+						"the analyzer offers %s but rejects the statement that uses it as offered (%s): %s -- the same statement alone in a function whose parameters carry the advertised types, %q, is rejected as well: %s -- every diagnostic of the program: %s",
+						advertised(p, in), offeredUse(p), strings.Join(onOp, "; "), alone, strings.Join(inProbe, "; "), util.Clip(strings.Join(all, "; "), 400))}})
+				}
+				res.Cover = append(res.Cover, "analyzer-rejected-consequence")
+			}
+		}
 		res.Verdict = fw.Held
 		res.Cover = append(res.Cover, "analyzer-rejected")
 		res.Obs = map[string]int64{"analyzer_rejected": 1}
@@ -585,6 +633,165 @@ func runProgram(p *payload, in inst) (res fw.Result) {
 		res.Sample = map[string]any{"backend": p.Backend, "program": p.Src, "outcome": ob.outcome.String(), "probes": showAll(ob.probes), "expect": e.Mode}
 	}
 	return finish(p, res, fails)
+}
+
+// opLines finds the statements of a generated program that perform the observed operation: the lines
+// after the construction marker `probe(true);` that apply the member / index / assignment to `recv`.
+// (The lines before the marker construct the receiver, the `let aN: T = ...;` lines bind the arguments
+// to variables declared with the advertised parameter types: a diagnostic there says that the
+// generator and the analyzer disagree about a literal, not that a member is refused.)
+func opLines(p *payload) map[int]string {
+	var pat []string
+	switch p.Part {
+	case "call":
+		pat = []string{"recv." + p.Member + "("}
+	case "field", "assign":
+		pat = []string{"recv." + p.Member + " ", "recv." + p.Member + ";"}
+	case "idx-int", "idx-set-int":
+		pat = []string{"recv[i]"}
+	default:
+		// idx-lit / idx-dyn / arrow / idx-set-lit ask for keys the type may not have: the analyzer is
+		// entitled to refuse those
+		return nil
+	}
+	out := map[int]string{}
+	after := false
+	for i, l := range strings.Split(p.Src, "\n") {
+		t := strings.TrimSpace(l)
+		if t == "probe(true);" {
+			after = true
+			continue
+		}
+		if !after || strings.HasPrefix(t, "probe(") {
+			continue
+		}
+		for _, x := range pat {
+			if strings.Contains(t, x) {
+				out[i+1] = t
+			}
+		}
+	}
+	return out
+}
+
+// opDiagnostics splits the error diagnostics of a rejected program: those located on one of the
+// given lines (the statements that perform the operation), and all of them (rendered with their
+// statement).
+func opDiagnostics(p *payload, syntax []herrors.Error, diags []diagnostic.Diagnostic, src string, ops map[int]string) (onOp, all []string) {
+	lines := strings.Split(src, "\n")
+	at := func(n int) string {
+		if n >= 1 && n <= len(lines) {
+			return strings.TrimSpace(lines[n-1])
+		}
+		return "?"
+	}
+	for _, s := range syntax {
+		// a syntax error is never the member's fault
+		all = append(all, fmt.Sprintf("syntax error line %d `%s`: %s", s.Span.Start.Line, at(int(s.Span.Start.Line)), s.Message))
+	}
+	if len(syntax) > 0 {
+		return nil, all
+	}
+	for _, d := range diags {
+		if d.Level != diagnostic.DiagnosticLevelError {
+			continue
+		}
+		n := int(d.Span.Start.Line)
+		txt := fmt.Sprintf("line %d `%s`: %s", n, at(n), d.Message)
+		all = append(all, txt)
+		if _, ok := ops[n]; ok {
+			onOp = append(onOp, txt)
+		}
+	}
+	return onOp, all
+}
+
+// useProbe renders the operation of a case alone: `fn op(recv: T, a0: P0, ...) { <the statements
+// that perform the operation> }` next to an empty main. No literal, no construction: whatever the
+// analyzer says about this program, it says about the use of the member with the advertised types.
+func useProbe(p *payload, in inst) (string, bool) {
+	tt := typeText(in.T)
+	if tt == "" {
+		return "", false
+	}
+	params := []string{"recv: " + tt}
+	switch p.Part {
+	case "call":
+		ft, ok := memberTable(in.T)[p.Member].(ast.FunctionType)
+		if !ok {
+			return "", false
+		}
+		ps, ok := paramsOf(ft)
+		if !ok || len(ps) != len(p.Args) {
+			return "", false
+		}
+		for i, fp := range ps {
+			at := typeText(fp.Type)
+			if at == "" {
+				at = typeText(typeOfRv(p.Args[i]))
+			}
+			if at == "" {
+				return "", false
+			}
+			params = append(params, fmt.Sprintf("a%d: %s", i, at))
+		}
+	case "field":
+	case "assign":
+		vt := typeText(memberTable(in.T)[p.Member])
+		if vt == "" {
+			return "", false
+		}
+		params = append(params, "v: "+vt)
+	case "idx-int":
+		params = append(params, "i: int")
+	case "idx-set-int":
+		lt, ok := in.T.(ast.ListType)
+		if !ok || typeText(lt.Inner) == "" {
+			return "", false
+		}
+		params = append(params, "i: int", "v: "+typeText(lt.Inner))
+	default:
+		return "", false
+	}
+	ops := opLines(p)
+	if len(ops) == 0 {
+		return "", false
+	}
+	var ns []int
+	for n := range ops {
+		ns = append(ns, n)
+	}
+	sort.Ints(ns)
+	var sb strings.Builder
+	sb.WriteString("fn op(" + strings.Join(params, ", ") + ") {\n")
+	for _, n := range ns {
+		sb.WriteString("    " + ops[n] + "\n")
+	}
+	sb.WriteString("}\nfn main() {\n}\n")
+	return sb.String(), true
+}
+
+// advertised renders what the analyzer's table says about the member / place of the case.
+func advertised(p *payload, in inst) string {
+	switch p.Part {
+	case "call", "field", "assign":
+		if mt, ok := memberTable(in.T)[p.Member]; ok {
+			return fmt.Sprintf("`%s` on %s as %s", p.Member, p.Inst, typeName(mt))
+		}
+		return fmt.Sprintf("`%s` on %s", p.Member, p.Inst)
+	}
+	return "indexing " + p.Inst + " with an int"
+}
+
+// offeredUse says why the use is the advertised one.
+func offeredUse(p *payload) string {
+	switch p.Part {
+	case "call":
+		return "every argument is a variable declared with exactly the advertised parameter type"
+	case "assign", "idx-set-int":
+		return "the assigned value is a variable declared with exactly the advertised type of the place"
+	}
+	return "the receiver is a variable declared with the type the member is offered on"
 }
 
 func showAll(vs []rv) []string {
